@@ -108,6 +108,9 @@ EXTRA = {
   '//@   at-call backend.Backend.UploadPart {C06} [declared-length-handed-to-backend-part] requires $1.ContentLength != nil && *$1.ContentLength == strconv.ParseInt(declaredTxt, 10, 64).0',
  ],
  "GetActions": [
+  '// C18: the attributes the client asked for are part of the request the backend is handed (the list is there, and only they are in it)',
+  '//@   at-call backend.Backend.GetObjectAttributes {C18} [the-attributes-asked-for-are-handed-on] requires called("utils.ParseObjectAttributes") && $1.ObjectAttributes == objAttrs',
+  '//@   at-call builtin.append[types.ObjectAttributes] {C18} [only-attributes-asked-for-are-handed-on] requires len($1) == 1 && in($1[0], attrs)',
   '//@   at-call controllers.SendResponse {C13} [status-206-iff-content-range] when $1 == nil && $2.Action == metrics.ActionGetObject :: requires ($2.Status == 206) <==> (res.ContentRange != nil && *res.ContentRange != "")',
   '//@   at-call utils.StreamResponseBody {C13} [body-and-length-forwarded] requires $1 == res.Body && res.ContentLength != nil ==> $2 == *res.ContentLength',
   '// every header added to a response header list whose name is Content-Range (in whatever casing) carries the value the backend',
